@@ -79,6 +79,7 @@ class Mirror:
                 self.joiner = r
                 self.ops.append([lab[2], "joining", "none", 0])
             else:
+                self.flag = False   # cleared under the lock
                 self.ops.append([lab[2], "unlocked", "none", 0])
             return True
         if r >= len(self.ops):
@@ -88,11 +89,11 @@ class Mirror:
             if o[1] != "joining" or self.alive(self.tracked):
                 return False
             self.joiner = None
+            self.flag = False   # cleared under the lock, right after join() returned
             o[1] = "unlocked"
         elif name == "cClear":
             if o[1] != "unlocked":
                 return False
-            self.flag = False
             o[1] = "cleared"
         elif name == "rTrack":
             if not (o[0] and o[1] == "cleared" and self.joiner is None):
@@ -552,6 +553,13 @@ class Replay:
                 inj_muts = (inj["poll"], self.labels[i + 1: i + 1 + skip])
             st = self.exec_label(i, lab, inj_muts)
             self.s.drain_waiters()
+            # a canceller that is blocked in join() has set the token and not yet cleared it: the token must still be set,
+            # or the worker it is waiting for will never hear of the cancellation
+            if getattr(self, "cancel_erased", None) is None:
+                waiting = [r_ for r_, ts_ in self.clients.items() if ts_.status() == "join"]
+                ev = getattr(self.db.worker, "_WorkerLauncher__cancel", None)
+                if waiting and ev is not None and not ev.is_set():
+                    self.cancel_erased = [i, lab, waiting[0]]
             self.obs.append(st)
             self.cached_trace.append(self.peek())
             for _ in range(skip):
@@ -578,6 +586,7 @@ class Replay:
             "t_ret": {str(r): v for r, v in self.t_ret.items()},
             "truth": self.truth,
             "cached_trace": self.cached_trace,
+            "cancel_erased": getattr(self, "cancel_erased", None),
             "cancelled_runs": self.cancelled_runs,
             "returned_runs": self.returned_runs,
             "event_log": "".join(x[0] for x in self.event.log),
@@ -1086,6 +1095,10 @@ class C13(core.PropertyCheck):
                 return (f"stale-result: request {r} was issued when the store held {truth[t0]} but returned {out['ok']}, "
                         f"a state that only existed before the request (update lost)")
             return f"inconsistent-snapshot: request {r} returned {out['ok']}, pages that were never stored together (history {truth})"
+        if impl.get("cancel_erased"):
+            i, lab, r = impl["cancel_erased"]
+            return (f"cancel-erased: after label {i} ({lab}) the cancellation token is clear although operation {r} is still blocked in "
+                    f"cancel() -> join(): the delayed clear() of an earlier cancel()/run() erased its set(), the worker it waits for is never told")
         for i, (origin, vers) in enumerate(impl["cached_trace"]):
             if origin is not None and origin in impl["cancelled_runs"]:
                 return f"cancelled-run-published: after label {i} the published result comes from request {origin} whose run was cancelled"
